@@ -3,6 +3,7 @@ import Srtla.Lemmas.Uplink
 import Srtla.Lemmas.SelectFrame
 import Srtla.Props.C15
 import Srtla.Lemmas.RunLevelRelay
+import Srtla.Lemmas.RunLevelRelayReload
 /-!
 # C09 — the return path relays receiver traffic to the SRT client unmodified
 
@@ -427,6 +428,87 @@ example :
 example :
     clientLog (@run Int Select.fixScalar { exSys with clientKnown := false }
       [.uplink 5000 7 exData, .client 5001 exData, .uplink 5002 7 exData]).2 = [exData] := by
+  decide +kernel
+
+/-! ## The relay log across reloads, in closed form -/
+
+/-- **The link set along ANY run, in closed form** (`Lemmas/ReloadKeys.lean`).  The KEY of a link is
+(conn id, address token); no operation of the shell rewrites either, so an event that is not a reload keeps the key
+list, and a reload maps it by the pure function `keysReload` (keep the keys whose address is still desired, in
+order; append one key per needed address whose `connect_uplink` attempt succeeded, with the drawn id).  Hence the
+keys — in particular the conn ids that name a PRESENT link — after any run are a pure function of the initial keys
+and the event list.  No hypothesis: no distinctness, no `NoReload`. -/
+theorem C09_link_set_closed_form (s : Sys F) (evs : List Ev) :
+    keysOf (run s evs).1.links = keysRun (keysOf s.links) evs ∧
+    ids (run s evs).1.links = (keysRun (keysOf s.links) evs).map (·.1) ∧
+    (∀ keys e es, keysRun keys (e :: es) = keysRun (keysAfter keys e) es) ∧
+    (∀ keys now addrs outs, keysAfter keys (.reload now addrs outs) =
+      keys.filter (fun k => addrs.contains k.2) ++
+        createdKeys ((dedupSeen [] addrs).filter fun a => !(keys.map (·.2)).contains a) outs) ∧
+    (∀ keys e, e.isReload = false → keysAfter keys e = keys) :=
+  ⟨run_keys s evs, run_ids s evs, fun _ _ _ => rfl, fun _ _ _ _ => rfl,
+   fun _ e h => by cases e <;> first | rfl | cases h⟩
+
+/-- **The relay log of a run WITH reloads, in closed form** (`C09_relay_run` without its two hypotheses `hnd` /
+`hnr`).  A client address known at the start (it stays known).  For EVERY event list, reloads included, from EVERY
+state, the concatenation of everything sent to the SRT client during the run is EXACTLY `relayablesK`: the uplink
+datagrams that are relayable AGAINST THE CONN IDS PRESENT WHEN THEY ARRIVE (two or more bytes, type not
+SRTLA-internal, conn id carried by a link that is current at that moment — the key list is threaded through the
+event list by `keysAfter`, a pure function), in arrival order, byte for byte, each once — an SRT ACK twice
+(`relayCopies`).  A datagram for the conn id of a link a reload has removed is not relayed; one for a link a reload
+has created is.  Second part: the general form for any initial `clientKnown`. -/
+theorem C09_relay_run_closed (s : Sys F) (evs : List Ev) :
+    (s.clientKnown = true →
+      clientLog (run s evs).2 = (relayablesK (keysOf s.links) evs).flatMap relayCopies) ∧
+    clientLog (run s evs).2 = relayLogK (keysOf s.links) s.clientKnown evs := by
+  refine ⟨fun hck => ?_, run_client_log_keys s evs⟩
+  rw [run_client_log_keys, hck, relayLogK_true]
+
+/-- The readings of `C09_relay_run_closed`, for runs WITH reloads: (1) every relayable datagram is delivered, in
+arrival order; (2) everything delivered is, byte for byte, an uplink datagram `evs[k]` of the run that arrived on
+the conn id of a link PRESENT in the state the run had reached after its first `k` events, has two or more bytes
+and is not SRTLA-internal; (3) conversely EVERY such datagram — arriving on an uplink that is current at that
+moment — reaches the client. -/
+theorem C09_relay_run_closed_reading (s : Sys F) (hck : s.clientKnown = true) (evs : List Ev) :
+    (relayablesK (keysOf s.links) evs).Sublist (clientLog (run s evs).2) ∧
+    (∀ d ∈ clientLog (run s evs).2, ∃ k now connId, evs[k]? = some (Ev.uplink now connId d) ∧
+      2 ≤ d.length ∧ (∃ l ∈ (run s (evs.take k)).1.links, l.core.connId = connId) ∧
+      ∀ pt, Codec.getPacketTypeS d = some pt → ¬ Internal pt) ∧
+    (∀ k now connId d, evs[k]? = some (Ev.uplink now connId d) → 2 ≤ d.length →
+      (∃ l ∈ (run s (evs.take k)).1.links, l.core.connId = connId) →
+      (∀ pt, Codec.getPacketTypeS d = some pt → ¬ Internal pt) → d ∈ clientLog (run s evs).2) := by
+  rw [(C09_relay_run_closed s evs).1 hck]
+  have hids : ∀ (k : Nat) c, c ∈ (keysRun (keysOf s.links) (evs.take k)).map (·.1) ↔
+      ∃ l ∈ (run s (evs.take k)).1.links, l.core.connId = c := by
+    intro k c
+    rw [← run_ids]; simp [ids]
+  refine ⟨sublist_flatMap_relayCopies _, ?_, ?_⟩
+  · intro d hd
+    obtain ⟨k, now, cid, h1, h2⟩ := mem_relayablesK.1 (mem_flatMap_relayCopies.1 hd)
+    obtain ⟨a, b, c⟩ := (C09_relayable_iff _ _ _).1 h2
+    exact ⟨k, now, cid, h1, a, (hids k cid).1 b, c⟩
+  · intro k now cid d h1 h2 h3 h4
+    exact mem_flatMap_relayCopies.2
+      (mem_relayablesK.2 ⟨k, now, cid, h1, (C09_relayable_iff _ _ _).2 ⟨h2, (hids k cid).2 h3, h4⟩⟩)
+
+/-- `exSys` with distinct uplink addresses: conn id 7 at address 1, conn id 9 at address 2. -/
+def exSysR : Sys Int :=
+  { exSys with links := exSys.links.mapIdx fun i l => { l with addr := i + 1 } }
+
+/-- A run WITH a reload: a data packet on link 9; a reload that keeps address 1, drops address 2 (link 9) and adds
+address 3 (drawn conn id 11); then a data packet for the REMOVED conn id 9 (not relayed), an SRT ACK on the
+surviving link 7 (relayed twice) and a data packet on the NEW link 11 (relayed).  The closed form computes the key
+list `[(7, 1), (11, 3)]` and the relayable datagrams without running the model. -/
+example :
+    clientLog (@run Int Select.fixScalar exSysR
+      [.uplink 5000 9 exData, .reload 5001 [1, 3] [some 11], .uplink 5002 9 exData, .uplink 5003 7 exSrtAck,
+       .uplink 5004 11 exData]).2 = [exData, exSrtAck, exSrtAck, exData] ∧
+    @keysOf Int exSysR.links = [(7, 1), (9, 2)] ∧
+    keysRun [(7, 1), (9, 2)] [.uplink 5000 9 exData, .reload 5001 [1, 3] [some 11]] = [(7, 1), (11, 3)] ∧
+    relayablesK [(7, 1), (9, 2)]
+      [.uplink 5000 9 exData, .reload 5001 [1, 3] [some 11], .uplink 5002 9 exData, .uplink 5003 7 exSrtAck,
+       .uplink 5004 11 exData] = [exData, exSrtAck, exData] ∧
+    exSysR.clientKnown = true := by
   decide +kernel
 
 end Srtla.Props.C09
